@@ -67,6 +67,9 @@ For each change x in {{{a}, {b}}} write into {new}/{pid}/x/ :
 The demo is copied to <demo_pkg_dir>/zz_seeded_demo_test.go when it is run, so it must not clash with names of existing test files' helpers
 (prefix your helpers with `seeded`).
 
+Do NOT use `git stash` (the stash is shared by all worktrees of /repo and other agents work in theirs at the same time): keep your change
+as a patch file and use `git apply` / `git checkout -- .` instead.
+
 Verify yourself, for each change: clean worktree + demo -> PASS; change applied + demo -> FAIL; change applied, demo removed -> build ok and the
 suite's failures are the same set as on the clean tree.  Produce the two changes one after the other from a clean worktree
 (`git -C {wt} checkout -- . && git -C {wt} clean -fdq` in between) so that each patch.diff contains one change only.
